@@ -3,6 +3,7 @@
 use std::io::{BufRead, Write};
 use std::panic;
 
+mod hist;
 mod util;
 use util::*;
 
@@ -120,6 +121,7 @@ fn main() {
         "truncate" => truncate_line,
         "bar" => bar_line,
         "dedup" => dedup_line,
+        "hist" => hist::hist_line,
         _ => {
             eprintln!("unknown suite {suite}");
             std::process::exit(2);
